@@ -5,6 +5,10 @@ ROOT = os.path.dirname(os.path.dirname(os.path.abspath(__file__)))
 sys.path.insert(0, ROOT)
 from plan import PLAN, LEVEL_TEXT, TECHNIQUE  # noqa
 try:
+    from plan import PYPLAN
+except ImportError:
+    PYPLAN = {}
+try:
     from plan import NOT_APPLICABLE
 except ImportError:
     NOT_APPLICABLE = {}
@@ -34,8 +38,10 @@ for p in props:
             },
             "level_note": "trusts the harness's own table model, reference coders and oracles (harness/hcommon) and the checked build "
                           "(opt-level 2 + debug-assertions + overflow-checks) of /repo's working tree; explores the finite configuration grid "
-                          "stated in the evidence rule; targets: " + targets,
-            "technique": TECHNIQUE[pid],
+                          "stated in the evidence rule; targets: " + targets
+                          + ("; Python front end: pycheck/%s (release build of the extension module from /repo's working tree, Hypothesis)" % PYPLAN[pid]["script"] if pid in PYPLAN else ""),
+            "technique": TECHNIQUE[pid] + ("; plus Hypothesis-driven search over %s of the Python front end with reference-model / round-trip oracles, shrunk example as replay file"
+                                           % ("model-constructor arguments" if PYPLAN[pid]["script"] == "c19_py.py" else "operation histories of the coder classes") if pid in PYPLAN else ""),
         })
     else:
         na.append({"property_id": pid, "reason": NOT_APPLICABLE.get(pid, "check under construction in this round; not claimed yet (the technique applies, see DESIGN.md section 4)")})
